@@ -64,7 +64,7 @@ RULE = ("A: every assignment of {absent, 22 behaviours (incl. required / at-leas
         "missing)} to 3 (quick) / 4 (thorough) rule slots with slot-fixed decorations, plus every assignment over "
         "behaviour x {no tags/links, tag, link, both} (+ oversize fail / metadata, four more falsy non-responses) to "
         "2 / 3 slots, each through SingleEvaluator serial + incremental, InsightsEvaluator, JsonFormat (plain, "
-        "render_content) and YamlFormat with everything shown; S: every multiset of <= 3 / <= 4 outcome kinds x "
+        "render_content) and YamlFormat with everything shown (InsightsEvaluator / render_content / YAML: sets of <= 2 / <= 3 rules); S: every multiset of <= 3 / <= 4 outcome kinds x "
         "every (missing, show_rules subset[, -F]) x {JsonFormat, YamlFormat, JsonFormatterAdapter, "
         "YamlFormatterAdapter}; W: 10-12 rules at once (uniform, and every single deviation from all-fail); "
         "D: every behaviour of a rule x a rule depending on it; T: declaration shapes x odd keys; K: metadata keys "
@@ -85,11 +85,11 @@ ASSUMPTIONS = [
 ]
 BOUNDS = {
     "quick": {"mixed_slots": 3, "full_slots": 2, "behaviours": 23, "full_family_extra_behaviours": 6,
-              "decorations": 4, "yaml_max_rules_part_a": 2, "wide_rules": [10, 11, 12],
+              "decorations": 4, "secondary_driver_max_rules_part_a": 2, "wide_rules": [10, 11, 12],
               "select_multiset_max": {"json": 3, "json-adapter": 2, "yaml": 2, "yaml-adapter": 2},
               "select_options": 128, "constructor_limit": [96, 0], "constructor_sizes": "limit-2..limit+2"},
     "thorough": {"mixed_slots": 4, "full_slots": 3, "behaviours": 23, "full_family_extra_behaviours": 6,
-                 "decorations": 4, "yaml_max_rules_part_a": 3, "wide_rules": [10, 11, 12],
+                 "decorations": 4, "secondary_driver_max_rules_part_a": 3, "wide_rules": [10, 11, 12],
                  "select_multiset_max": {"json": 4, "json-adapter": 4, "yaml": 4, "yaml-adapter": 3},
                  "select_options": 128, "constructor_limit": [96, 0], "constructor_sizes": "limit-2..limit+2"},
 }
@@ -168,6 +168,9 @@ IMPL_TYPES = ["rule", "info", "pass", "none", "metadata", "fingerprint"]     # v
 CLI_OF = {"rule": "fail"}                                                  # '-S fail' is spelt 'rule' at the Impl level
 A_DRIVERS = ["single-serial", "single-incremental", "insights-serial", "json", "json-render", "yaml"]
 S_DRIVERS = ["json", "json-adapter", "yaml", "yaml-adapter"]
+# same dispatch code as a primary driver (YamlFormat and InsightsEvaluator inherit SingleEvaluator.handle_result and
+# differ in the dump / format_result; render_content adds one member to JsonFormat's entry): smaller rule sets in part A
+SECONDARY_DRIVERS = ("yaml", "json-render", "insights-serial")
 LIVE_DRIVERS = ("single-serial", "single-incremental", "insights-serial")    # return live python objects
 
 _ST = {"beh": {}, "dep": {}, "calls": []}
@@ -1090,8 +1093,8 @@ def run_unit(unit, tier):
             n_sets += 1
             n_present = sum(1 for r in rules if r is not None)
             for driver in A_DRIVERS:
-                if driver == "yaml" and n_present > b["yaml_max_rules_part_a"]:
-                    continue            # YamlFormat shares handle_result with SingleEvaluator; only the dump differs
+                if driver in SECONDARY_DRIVERS and n_present > b["secondary_driver_max_rules_part_a"]:
+                    continue            # these share handle_result with SingleEvaluator / JsonFormat
                 case = {"part": "A", "rules": rules, "driver": driver}
                 if driver not in LIVE_DRIVERS:
                     case.update(ALL_SHOWN)
